@@ -135,6 +135,7 @@ func values(args []string) error {
 	n := fs.Int("n", 1, "values per type")
 	out := fs.String("out", "", "output (ndjson)")
 	only := fs.String("types", "", "type filter")
+	wm := fs.Bool("wm", false, "the message universe of the WireMachine model: every frame type with a small body and without a body, plus a plain message")
 	fs.Parse(args)
 	f, err := os.Create(*out)
 	if err != nil {
@@ -146,6 +147,42 @@ func values(args []string) error {
 	enc := json.NewEncoder(w)
 	g := vh.NewGen(*seed)
 	g.Small = true
+	g.MaxList = 1
+	if *wm {
+		emit := func(t string, v map[string]any) error {
+			obj, err := vh.Build(v)
+			if err != nil {
+				return err
+			}
+			return enc.Encode(map[string]any{"t": t, "v": vh.Dump(obj)})
+		}
+		for _, ft := range vh.Frames() {
+			bf := vh.BodyField(ft)
+			tab := vh.S.Tables[bf.Table]
+			// the registered body with the fewest fields, chosen among a seed-dependent window
+			best := tab.Entries[int(*seed)%len(tab.Entries)]
+			for k := 0; k < 4; k++ {
+				e := tab.Entries[(int(*seed)+k)%len(tab.Entries)]
+				if len(vh.S.Types[e.Type].Fields) < len(vh.S.Types[best.Type].Fields) {
+					best = e
+				}
+			}
+			v := g.Value(ft, vh.Canon)
+			v[tab.KeyField] = best.Key
+			v[bf.Name] = g.Value(best.Type, vh.Canon)
+			if err := emit(ft, v); err != nil {
+				return err
+			}
+			if bf.Nil == "skip" {
+				v2 := g.Value(ft, vh.Canon)
+				v2[bf.Name] = map[string]any{"_t": "nil"}
+				if err := emit(ft, v2); err != nil {
+					return err
+				}
+			}
+		}
+		return emit("sample.SubPacket", g.Value("sample.SubPacket", vh.Canon))
+	}
 	filter := vh.ParseFilter(*only)
 	for _, t := range vh.TypeNames() {
 		if filter != nil && !filter[t] {
